@@ -553,6 +553,38 @@ Qed.
 Lemma date_ok today : in_date_range today -> parse_date (fmt_date today) = Some today.
 Proof. intros R. exact (proj1 (date_roundtrip today R)). Qed.
 
+Definition set_mode_result (m : bytes) (today : Z) (t : tree) : tree * bool :=
+  match t with
+  | None => (Some [(n_mode, File (mode_file_bytes m today))], true)
+  | Some es =>
+      match assoc n_mode es with
+      | Some (Dir _) => (t, false)
+      | _ => (Some (set_entry n_mode (File (mode_file_bytes m today)) es), true)
+      end
+  end.
+
+Lemma set_mode_spec m today t : in_date_range today -> cli_set_mode m today t = set_mode_result m today t.
+Proof. intros R. unfold cli_set_mode. rewrite (date_ok _ R). reflexivity. Qed.
+
+Lemma mode_cmd_spec c today t : in_date_range today ->
+  cli_mode_cmd c today t =
+  if beq (fst (cli_read_mode t)) (mode_str c) then (t, true) else set_mode_result (mode_str c) today t.
+Proof. intros R. unfold cli_mode_cmd. rewrite (set_mode_spec _ _ _ R). reflexivity. Qed.
+
+Lemma set_mode_result_ok m today t :
+  snd (set_mode_result m today t) = negb (mode_is_dir t).
+Proof.
+  destruct t as [es|]; [|reflexivity]. cbn [set_mode_result mode_is_dir].
+  destruct (assoc n_mode es) as [[x|sub]|]; reflexivity.
+Qed.
+
+Lemma set_mode_result_fail m today t :
+  snd (set_mode_result m today t) = false -> fst (set_mode_result m today t) = t.
+Proof.
+  destruct t as [es|]; [|discriminate]. cbn [set_mode_result].
+  destruct (assoc n_mode es) as [[x|sub]|]; try discriminate. reflexivity.
+Qed.
+
 (* a mode command that has to write succeeds unless the mode path is a
    directory, and then the file reads back as (requested mode, today) *)
 Theorem mode_cmd_sets c today t : in_date_range today ->
@@ -579,12 +611,11 @@ Theorem mode_cmd_reports c today t : in_date_range today ->
 Proof.
   intros R OK. destruct (beq (fst (cli_read_mode t)) (mode_str c)) eqn:E.
   - apply beq_eq in E. rewrite (mode_cmd_noop _ _ _ E). exact E.
-  - apply beq_neq in E. destruct (mode_is_dir t) eqn:MD.
-    + exfalso. unfold cli_mode_cmd in OK. apply beq_neq in E. rewrite E in OK.
-      unfold cli_set_mode in OK. rewrite (date_ok _ R) in OK.
-      destruct t as [es|]; [|discriminate]. cbn [mode_is_dir] in MD.
-      destruct (assoc n_mode es) as [[x|sub]|]; discriminate.
-    + destruct (mode_cmd_sets c today t R E MD) as [_ ->]. reflexivity.
+  - assert (MD : mode_is_dir t = false).
+    { rewrite (mode_cmd_spec _ _ _ R), E, set_mode_result_ok in OK.
+      apply negb_true_iff in OK. exact OK. }
+    apply beq_neq in E.
+    destruct (mode_cmd_sets c today t R E MD) as [_ RB]. rewrite RB. reflexivity.
 Qed.
 
 (* the only failure: the mode path is a directory (then Mode() reads the
@@ -612,11 +643,9 @@ Qed.
 Theorem mode_cmd_failure_inert c today t : in_date_range today ->
   snd (cli_mode_cmd c today t) = false -> fst (cli_mode_cmd c today t) = t.
 Proof.
-  intros R F. unfold cli_mode_cmd in *.
+  intros R. rewrite (mode_cmd_spec _ _ _ R).
   destruct (beq (fst (cli_read_mode t)) (mode_str c)); [reflexivity|].
-  unfold cli_set_mode in *. rewrite (date_ok _ R) in *.
-  destruct t as [es|]; [|discriminate].
-  destruct (assoc n_mode es) as [[x|sub]|]; try discriminate. reflexivity.
+  apply set_mode_result_fail.
 Qed.
 
 (* ------------------------------------------- mixed command histories *)
